@@ -80,13 +80,34 @@ def return_shape(prog, path):
     return res
 
 
+def ite_expr(fn, e, depth=0):
+    """Expand a local that is assigned once on each side of one boolean branch into ("ite", cond, e_true, e_false)."""
+    from . import guards, cfg
+    if depth > 4 or not (isinstance(e, tuple) and e and e[0] == "local"):
+        return e
+    ds = [dd for dd in df.defs_of(fn).all(e[1]) if not fn.blocks[dd[1]]["cleanup"]]
+    if len(ds) != 2 or any(dd[0] not in ("stmt", "call") for dd in ds):
+        return e
+
+    def dexpr(dd):
+        return df.rvalue_expr(fn, dd[3]["rv"]) if dd[0] == "stmt" else df.call_expr(fn, dd[2])
+    for g in guards.find_bool_guards(fn, lambda x: True):
+        tr, fr = cfg.dominated_by_edge(fn, g["true_edge"]), cfg.dominated_by_edge(fn, g["false_edge"])
+        a = [dd for dd in ds if dd[1] in tr]
+        b = [dd for dd in ds if dd[1] in fr]
+        if len(a) == 1 and len(b) == 1 and a[0] is not b[0]:
+            return ("ite", g["expr"], ite_expr(fn, dexpr(a[0]), depth + 1), ite_expr(fn, dexpr(b[0]), depth + 1))
+    return e
+
+
 class Model:
     """symbols: list of (name, matcher) where matcher(expr) -> bool decides that an expression *is* that integer symbol.
     seqsyms: the same for sequence-valued expressions (the symbol stands for the sequence's length).
     enumsyms: [(name, matcher)] for path-constant enum values; env[name] is the variant name.
     prog: when given, calls of local functions with a single return expression (or a match on an enum symbol) are inlined."""
 
-    def __init__(self, symbols, prog=None, seqsyms=(), enumsyms=()):
+    def __init__(self, symbols, prog=None, seqsyms=(), enumsyms=(), fn=None):
+        self.fn = fn          # when given, a local assigned once on each side of a branch is read as if-then-else
         self.symbols = symbols
         self.seqsyms = list(seqsyms)
         self.enumsyms = list(enumsyms)
@@ -182,6 +203,12 @@ class Model:
             return e[1]
         if k == "cast":
             return self.val(e[1], env)
+        if k == "local" and self.fn is not None:
+            e2 = ite_expr(self.fn, e)
+            if e2 != e:
+                return self.val(e2, env)
+        if k == "ite":
+            return self.val(e[2], env) if self.boolval(e[1], env) else self.val(e[3], env)
         if k == "field" and e[2] == 0 and isinstance(e[1], tuple) and e[1][0] == "bin" and e[1][1].endswith("WithOverflow"):
             return self.val(("bin", e[1][1][:-len("WithOverflow")], e[1][2], e[1][3]), env)
         if k == "bin" and e[1] in ("Add", "Sub", "AddUnchecked", "SubUnchecked"):
@@ -207,6 +234,8 @@ class Model:
             a, b = self.val(e[2], env), self.val(e[3], env)
             r = {"Lt": a < b, "Le": a <= b, "Gt": a > b, "Ge": a >= b, "Eq": a == b, "Ne": a != b}[e[1]]
             return r != neg
+        if isinstance(e, tuple) and e and e[0] == "call" and e[1].endswith("::is_empty") and len(e[2]) == 1:
+            return (self.seqlen(e[2][0], env) == 0) != neg
         raise Unsupported("condition %s" % df.show(e, 100))
 
     # ---- iterator terms ---------------------------------------------------------------------------------------------
